@@ -54,6 +54,19 @@ func c15eRun(c c15eCase) (v *verdict, prog *progen.Program, labels []string, gro
 			return &verdict{Key: "C15/behaviour-differs", Msg: fmt.Sprintf("garble %s: program using struct conversions behaves differently: %s\n%s", c.Cfg.Key(), d, got.Brief())}, prog, labels, 0
 		}
 	}
+	if prog.Features["tests"] && c.Cfg == (h.Config{}) {
+		// test variants: the package is compiled once more with its test files, and
+		// the external test package imports that variant; identical struct types
+		// must still agree on their field names, or the tests do not compile.
+		tbox := h.NewCaseBox(dir, c.Cfg, h.LevelTest)
+		want := plain.Go(src, nil, "test", "-count=1", "-v", "./...")
+		got := tbox.Garble(c.Cfg, src, "test", "-count=1", "-v", "./...")
+		labels = append(labels, "garble-test")
+		if wv, gv := testVerdicts(want.Stdout), testVerdicts(got.Stdout); wv != gv || want.Exit != got.Exit {
+			return &verdict{Key: "C15/test-variant-differs", Msg: fmt.Sprintf("garble test differs from go test on a program whose external test package uses the fields of a struct with unexported fields\n--- go test (exit %d)\n%s\n--- garble test (exit %d)\n%s\n%s", want.Exit, wv, got.Exit, gv, h.Clip(got.Stderr+got.Stdout, 2500))}, prog, labels, 0
+		}
+		h.RemoveAll(tbox.Root)
+	}
 	nm, err := h.ExtractNames(src, dd, pkgDirs(c.Spec))
 	if err != nil {
 		rc.Abort("pairing original and garbled sources: %v", err)
@@ -148,7 +161,7 @@ func c15eRun(c c15eCase) (v *verdict, prog *progen.Program, labels []string, gro
 }
 
 func c15Kinds() []string {
-	return []string{"conv", "conv", "conv", "anon", "anon", "struct", "embed", "embedalias", "generic", "genericmethods", "unexportedclash", "recursive", "sortmaps"}
+	return []string{"conv", "conv", "conv", "anon", "anon", "struct", "embed", "embedalias", "generic", "genericmethods", "unexportedclash", "recursive", "sortmaps", "tests", "tests"}
 }
 
 func TestC15(t *testing.T) {
